@@ -475,11 +475,13 @@ unsafe fn do_spawn<F: PreExec>(
             if let Some(cwd) = cwd {
                 rusl::unistd::chdir(cwd)?;
             }
-            if let Some(uid) = uid {
-                rusl::unistd::setuid(uid)?;
-            }
+            // The group id has to be set first, dropping the user id first would take away the
+            // privilege needed to change the group
             if let Some(gid) = gid {
                 rusl::unistd::setgid(gid)?;
+            }
+            if let Some(uid) = uid {
+                rusl::unistd::setuid(uid)?;
             }
             if let Some(pgroup) = pgroup {
                 rusl::unistd::setpgid(0, pgroup)?;
